@@ -285,6 +285,16 @@ def run(ctx: Ctx) -> Result:
         if not (st2 == 'OK' and it2[-1] == b'\xff'):
             if 'K4' in known: res.known.append(('K4', 'OP_MAKE_ADAPTER_SIG_PRIVATE output (T, R, sa = t + r + c*x) never satisfies OP_CHECK_ADAPTER_SIG (upstream issue #18)'))
             else: viol('MAKE_ADAPTER_SIG_PRIVATE vs CHECK_ADAPTER_SIG', {'finding': 'K4'}, 'true', o2)
+    # the four adapter instructions under every documented spelling (full name, OP_-less name, short alias, OP_ + short alias, any case)
+    # assemble to the instruction the documentation names - a script written with an alias makes the adapter the others check
+    P_ = impl.parsing()
+    for full, short in (('MAKE_ADAPTER_SIG_PUBLIC', 'MASU'), ('MAKE_ADAPTER_SIG_PRIVATE', 'MASV'), ('CHECK_ADAPTER_SIG', 'CAS'), ('DECRYPT_ADAPTER_SIG', 'DAS')):
+        for sp in ('OP_' + full, full, short, 'OP_' + short, ('OP_' + short).lower(), short.lower(), full.lower()):
+            res.note_case(('spelling', sp))
+            try: got = P_.compile_script('true ' + sp + ' false').hex()
+            except BaseException as e: got = 'ERR:' + type(e).__name__
+            want = (b'\x01' + op(full) + b'\x00').hex()
+            if got != want: viol(f'the spelling `{sp}` of OP_{full}', {'source': 'true ' + sp + ' false'}, want, got)
     # a sign_script_prefix runs before the message is built - in the witness builder as in a lock that carries the same prefix: with
     # a signature extension that the prefix switches on, the adapter is over the extended message (passes the prefixed lock, decrypts
     # to a signature the prefixed signature lock accepts) and is not an adapter for the plain lock
